@@ -158,7 +158,7 @@ func newExec(w *World, fn *ssa.Function, key string, props []string, discover bo
 	x := &Exec{w: w, em: NewEmitter(), top: fn, trusted: map[string]bool{}, discover: discover,
 		loopMods: map[*ssa.BasicBlock]map[string]bool{}, strConst: map[string]string{}, sumFns: map[string]string{},
 		typeTags: map[string]int{}, ordinals: map[string]int{}, props: props, fnKey: key, sumInst: map[string]bool{},
-		usedContracts: map[string]bool{}, loopRoots: map[*ssa.BasicBlock]map[string][]ssa.Value{}, opaque: map[string]*opaqueInfo{}, bindFail: map[string]bool{}, guardsSeen: map[string]bool{}}
+		usedContracts: map[string]bool{}, loopRoots: map[*ssa.BasicBlock]map[string][]ssa.Value{}, opaque: map[string]*opaqueInfo{}, bindFail: map[string]bool{}, guardsSeen: map[string]bool{}, resTypes: map[string]types.Type{}}
 	return x
 }
 
